@@ -258,6 +258,12 @@ func genC19parse(g *G) {
 				nt := faultLine > 1 && faultLine < len(out)
 				g.Add(Case{Req: req("parsefile19", hxs("dir/file_x.soy"), hxs(src), strconv.Itoa(faultLine)), NT: nt,
 					Class: fl.name, Note: fl.name + " on line " + strconv.Itoa(faultLine) + " of " + itoa(len(out)) + "\n" + src, NoModel: true})
+				if g.R.Intn(4) == 0 {
+					// the same file with CR LF line ends (and with a lone CR inside a line): a line is what "\n" ends
+					crlf := strings.ReplaceAll(src, "\n", "\r\n")
+					g.Add(Case{Req: req("parsefile19", hxs("dir/file_x.soy"), hxs(crlf), strconv.Itoa(faultLine)), NT: nt,
+						Class: fl.name + "+crlf", Note: fl.name + " (CR LF) on line " + strconv.Itoa(faultLine) + " of " + itoa(len(out)) + "\n" + crlf, NoModel: true})
+				}
 			}
 		}
 	}
